@@ -15,7 +15,7 @@ DRIVER = os.path.join(VERIF, "engine", "bluefacts", "target", "release", "bluefa
 
 # crates the quick tier extracts (the anchored crates of the 20 properties and what they build on)
 QUICK_PKGS = ["lsmtk", "sst", "mani", "setsum", "sync42", "skipfree", "listfree", "buffertk",
-              "prototk", "tuple_key", "tuple_key2", "utilz", "handled", "scrunch"]
+              "prototk", "tuple_key", "tuple_key2", "utilz", "handled", "scrunch", "macarunes", "paxos_pb"]
 
 # fact files that must exist after a quick extraction, with the function-count floors counted on
 # the tree the rules were armed on (a driver that silently skipped a crate must not pass).
